@@ -1244,11 +1244,48 @@ def rewiring_order(rep: Report, ctx: Ctx, rule: str) -> None:
                   "predecessors")
 
 
+def loop_orchestration(rep: Report, ctx: Ctx, rule: str) -> None:
+    """detect_loops, per cyclic component: classify on the graph as it is
+    now, replace the break events that touch the exit by dummy breaks, THEN
+    carve the body (the body must contain the dummy breaks)."""
+    from .effspec import before, effects, expect
+    fi = ctx.func("detect_loops")
+    effs = effects(ctx, fi, names={
+        "calc_components_of_loop", "create_sub_graph_of_loop",
+        "filter_and_replace_breaks_connected_to_end_events"})
+    SCC = "each(strongly_connected_components(P:graph))"
+    # (the iterable of a `for` is evaluated once, before the loop; when it
+    # is written in the loop header itself the role engine describes the
+    # graph in it as loop-carried - same thing here)
+    SCC2 = "each(strongly_connected_components(state(P:graph)))"
+    G = "state(P:graph)"
+    LOOP = f"calc_components_of_loop({SCC},{G})"
+    LOOP2 = f"calc_components_of_loop({SCC2},{G})"
+    c1 = expect(rep, rule, fi, effs, "the components are classified on the "
+                "graph the previous iteration left", kind="call",
+                name="calc_components_of_loop", args=(SCC, G),
+                alt_args=[(SCC2, G)], any_guard=True)
+    c2 = expect(rep, rule, fi, effs, "break events that touch the loop's "
+                "exit are replaced by dummy breaks, in that graph", kind="call",
+                name="filter_and_replace_breaks_connected_to_end_events",
+                args=(G, LOOP), alt_args=[(G, LOOP2)], any_guard=True)
+    c3 = expect(rep, rule, fi, effs, "the body is carved out of that graph",
+                kind="call", name="create_sub_graph_of_loop", args=(LOOP, G),
+                alt_args=[(LOOP2, G)], any_guard=True)
+    if c2 is not None and c3 is not None:
+        rep.ob(rule, "dummy breaks are inserted before the body is carved "
+               "(they are part of the body)",
+               before(ctx, fi, c2.node, c3.node), fi=fi, node=c3.node,
+               detail="create_sub_graph_of_loop works on a deep copy taken "
+                      "when it is called")
+
+
 def r713(rep: Report, ctx: Ctx) -> None:
     rep.rule("R7.13", "parent rewiring keeps edges and successor / "
              "predecessor sets of the loop boundary in step", 18)
     parent_rewiring(rep, ctx, "R7.13")
     rewiring_order(rep, ctx, "R7.13")
+    loop_orchestration(rep, ctx, "R7.13")
 
 
 def r714(rep: Report, ctx: Ctx) -> None:
